@@ -168,6 +168,11 @@ def _export_call_loop():
             tags.append("roots_extend")
         elif isinstance(st, ast.Expr) and "._mx_roots.append(" in src:
             tags.append("roots_append")
+        elif isinstance(st, ast.Assign) and isinstance(st.value, ast.Call) and \
+                isinstance(st.value.func, ast.Attribute) and st.value.func.attr == "__next__" and \
+                any(isinstance(a, ast.Assign) and _src_of(a.targets[0]) == _src_of(st.value.func.value)
+                    and "_mx_walk()" in _src_of(a.value) for a in ast.walk(call)):
+            continue        # the pairing of new and base spaces, written without the built-in `zip`
         else:
             raise ValueError("unknown statement in __call__ loop: " + src[:60])
     return tags
